@@ -97,16 +97,22 @@ func (l *LevelKV) Set(id []byte, val []byte) error {
 func (l *LevelKV) Update(u func(tx kvi.KVTransaction) error) error {
 	tx, _ := l.db.OpenTransaction()
 	ktx := levelTransaction{tx, l.db}
-	defer tx.Commit()
-	return u(ktx)
+	if err := u(ktx); err != nil {
+		tx.Discard()
+		return err
+	}
+	return tx.Commit()
 }
 
 // BulkWrite is a copy of Update, with no special function yet...
 func (l *LevelKV) BulkWrite(u func(tx kvi.KVBulkWrite) error) error {
 	tx, _ := l.db.OpenTransaction()
 	ktx := levelTransaction{tx, l.db}
-	defer tx.Commit()
-	return u(ktx)
+	if err := u(ktx); err != nil {
+		tx.Discard()
+		return err
+	}
+	return tx.Commit()
 }
 
 type levelTransaction struct {
